@@ -204,6 +204,32 @@ QuantImg(f, img) == [i \in 1..Len(img) |-> Quant(f, img[i])]
 \* the bytes of an image: the pixels' bytes one after the other (third argument kept for callers)
 EncodeImg(f, img, i) == LET n == BytesPerPixel(f) IN
     [q \in 1..(n * Len(img)) |-> Encode(f, img[((q - 1) \div n) + 1])[((q - 1) % n) + 1]]
+\* the pixels held by the bytes of an image
+DecodeImg(f, raw) == LET n == BytesPerPixel(f) IN
+    [p \in 1..(Len(raw) \div n) |-> Decode(f, [q \in 1..n |-> raw[(p - 1) * n + q]])]
+\* what a reader decodes is already quantised: storing it again and reading gives the same pixels
+DecodedFixed(f, d) == /\ Quant(f, Decode(f, d)) = Decode(f, d)
+                      /\ Decode(f, Encode(f, Decode(f, d))) = Decode(f, d)
+
+(* ---- histories of a texture that was read from a file --------------------------------- *)
+\* One entry per mipmap level (entry m + 1 is level m): where its pixels come from - the file
+\* ("file") or, once clear_mipmaps() erased it, the level above ("cleared") - and whether the
+\* lazily read frame has been loaded into memory, which must not be observable.
+LvInit(mips) == [j \in 1..mips |-> [st |-> "file", loaded |-> FALSE]]
+Sel(sel, m) == CASE sel = "top" -> m = 0 [] sel = "small" -> m >= 1 [] OTHER -> TRUE
+\* loading or looking at a frame that was cleared is not a documented way to keep or regenerate it
+CanLoad(lv, sel) == \A j \in 1..Len(lv) : Sel(sel, j - 1) => lv[j].st # "cleared"
+HLoad(lv, sel) == [j \in 1..Len(lv) |-> IF Sel(sel, j - 1) THEN [lv[j] EXCEPT !.loaded = TRUE] ELSE lv[j]]
+HAccess(lv, m) == [lv EXCEPT ![m + 1].loaded = TRUE]
+\* clear_mipmaps(after): every level smaller than level `after` is erased
+HClear(lv, after) == [j \in 1..Len(lv) |-> IF j - 1 > after THEN [st |-> "cleared", loaded |-> FALSE] ELSE lv[j]]
+\* compute_mipmaps() regenerates erased levels from the level above; nothing else changes, and
+\* save() does the same, so for the content of the next file it is the identity
+HCompute(lv) == lv
+\* the content of level m in the next saved file: the stored level `base`, averaged `avgs` times
+RECURSIVE Term(_, _)
+Term(lv, m) == IF lv[m + 1].st = "file" THEN [base |-> m, avgs |-> 0]
+               ELSE LET p == Term(lv, m - 1) IN [base |-> p.base, avgs |-> p.avgs + 1]
 \* the 16-bit-per-channel formats are not decoded: only their metadata is read
 HeaderOnly(f) == f \in {"RGBA16161616", "RGBA16161616F"}
 =============================================================================
